@@ -449,6 +449,9 @@ def run(ctx) -> None:
              "the stream - a truncated value is not the value last written, and a cut inside an escape sequence leaves a file the loader rejects")
     ctx.rule("C14.A9-temporary-name-is-unique-per-call", "the temporary file of an update is this call's own: its name carries a per-call unique token (uuid, tempfile), "
              "not only the process id or a constant - overlapping updates of one state file must not share a temporary path")
+    ctx.rule("C14.R10-nothing-of-an-earlier-update-is-written", "a writer that serialises into a buffer kept on the object (an io.StringIO / BytesIO attribute) empties "
+             "it on every path before it reads it back (truncate after the seek, or a fresh buffer): otherwise a shorter update is followed by the tail "
+             "of a longer earlier one and old 'key=value' lines win on load")
     ctx.rule("C14.A7-complete-writes", "no writer hands bytes to a raw os.write and drops the count it returns (a short write must not be published)")
     ctx.rule("C14.R5-escape-agreement", "keys escaped by Status.writeToStream equal keys unescaped by Status.statusFromFile with inverse codecs; one 'key=value' line per key")
     ctx.assume("os.rename within one directory is atomic (POSIX); durability (fsync) is not part of the property")
@@ -459,6 +462,36 @@ def run(ctx) -> None:
         m = ctx.repo.module(rel)
         fn = m.func(q)
         total += check_writer(ctx, m, fn, label)
+        # R10: a buffer that outlives the call
+        cls_ = source.enclosing_class(fn)
+        kept = set()
+        if cls_ is not None:
+            for a_ in ast.walk(cls_):
+                if isinstance(a_, ast.Assign) and isinstance(a_.value, ast.Call) and (call_name(a_.value) or "").split(".")[-1] in ("StringIO", "BytesIO"):
+                    for t_ in a_.targets:
+                        if isinstance(t_, ast.Attribute) and isinstance(t_.value, ast.Name) and t_.value.id == "self" \
+                                and source.enclosing_def(a_) is not fn:
+                            kept.add(t_.attr)
+        cfgw = CFG(fn)
+        reads = [n for n in cfgw.nodes if n.ast is not None and n.kind in ("stmt", "with", "test") and any(
+            last_attr(c) in ("getvalue", "read", "readlines") and isinstance(c.func.value, ast.Attribute) and c.func.value.attr in kept
+            and isinstance(c.func.value.value, ast.Name) and c.func.value.value.id == "self" for c in own_calls(n.ast))]
+        for rd in reads:
+            attr = next(c.func.value.attr for c in own_calls(rd.ast) if last_attr(c) in ("getvalue", "read", "readlines") and isinstance(c.func.value, ast.Attribute)
+                        and c.func.value.attr in kept)
+            empties = [n for n in cfgw.nodes if n.ast is not None and n.kind == "stmt" and (any(
+                last_attr(c) == "truncate" and isinstance(c.func.value, ast.Attribute) and c.func.value.attr == attr for c in own_calls(n.ast)) or (
+                isinstance(n.ast, ast.Assign) and any(isinstance(t_, ast.Attribute) and t_.attr == attr for t_ in n.ast.targets)))]
+            ok = bool(empties) and cfgw.every_path_to_passes(rd, gates=empties)
+            ctx.ob("C14.R10-nothing-of-an-earlier-update-is-written", rd.ast, ok,
+                   "%s: self.%s is emptied before it is read back" % (label, attr) if ok else
+                   "%s: the text that is written comes from self.%s, a buffer that lives as long as the object, and it is not emptied (no truncate / fresh buffer) "
+                   "on every path before it is read back: an update whose text is shorter than an earlier one is followed by the tail of the longer "
+                   "text - whole old 'key=value' lines after the new ones, and the later duplicates win on load (experiment-state=running is read "
+                   "back as failed)" % (label, attr), construct="%s: self.%s emptied before it is read" % (source.qualname(fn), attr))
+        if not reads:
+            ctx.ob("C14.R10-nothing-of-an-earlier-update-is-written", fn, True, "%s: no buffer that outlives the call is read back" % label,
+                   construct="%s: no persistent serialisation buffer" % source.qualname(fn))
     ctx.floor("C14.A1-temp-then-rename", total, 5, "write-open sites in the state-file writers")
 
     # who else writes these files (path expression mentions a state-file name)
